@@ -352,4 +352,324 @@ theorem readFile_writeMerged (name : Name) (pathIds : List Id) (merged : Coll V)
 
 end DirLemmas
 
+/-! ## more on association lists: membership, permutations, the canonical form -/
+
+section AssocMore
+variable {κ : Type} [DecidableEq κ] {β : Type}
+
+theorem mem_ainsert {x : κ × β} {k : κ} {v : β} {m : List (κ × β)} (h : x ∈ ainsert k v m) :
+    x = (k, v) ∨ x ∈ m := by
+  induction m with
+  | nil => simp [ainsert] at h; exact .inl h
+  | cons y rest ih =>
+    obtain ⟨a, b⟩ := y
+    by_cases h1 : a = k
+    · simp [ainsert, h1] at h
+      rcases h with h | h
+      · exact .inl h
+      · exact .inr (List.mem_cons_of_mem _ h)
+    · simp only [ainsert, h1, if_false, List.mem_cons] at h
+      rcases h with h | h
+      · exact .inr (by simp [h])
+      · rcases ih h with h | h
+        · exact .inl h
+        · exact .inr (List.mem_cons_of_mem _ h)
+
+theorem mem_aextend {x : κ × β} (more : List (κ × β)) :
+    ∀ m : List (κ × β), x ∈ aextend m more → x ∈ m ∨ x ∈ more := by
+  induction more with
+  | nil => intro m h; exact .inl h
+  | cons y rest ih =>
+    intro m h
+    rw [aextend_cons] at h
+    rcases ih _ h with h | h
+    · rcases mem_ainsert h with h | h
+      · exact .inr (by simp [h])
+      · exact .inl h
+    · exact .inr (List.mem_cons_of_mem _ h)
+
+theorem mem_afromList {x : κ × β} {l : List (κ × β)} (h : x ∈ afromList l) : x ∈ l := by
+  rcases mem_aextend l [] h with h | h
+  · cases h
+  · exact h
+
+theorem alookup_perm {l1 l2 : List (κ × β)} (hp : l1.Perm l2) (hn : (keys l1).Nodup) (k : κ) :
+    alookup k l1 = alookup k l2 := by
+  have hn2 : (keys l2).Nodup := (hp.map (fun x : κ × β => x.1)).nodup_iff.mp hn
+  cases h : alookup k l1 with
+  | some v => exact (mem_alookup_of_nodup hn2 (hp.mem_iff.mp (alookup_some_mem h))).symm
+  | none =>
+    have : k ∉ keys l2 := fun hk => (alookup_none_iff k l1).mp h ((hp.map (fun x : κ × β => x.1)).mem_iff.mpr hk)
+    exact ((alookup_none_iff k l2).mpr this).symm
+
+omit [DecidableEq κ] in
+theorem nodup_of_nodup_keys {m : List (κ × β)} (h : (keys m).Nodup) : m.Nodup := by
+  induction m with
+  | nil => exact List.nodup_nil
+  | cons x rest ih =>
+    simp only [keys_cons, List.nodup_cons] at h ⊢
+    exact ⟨fun hx => h.1 (List.mem_map.mpr ⟨x, hx, rfl⟩), ih h.2⟩
+
+/-- two maps with the same lookups hold the same bindings -/
+theorem perm_of_alookup_eq {m1 m2 : List (κ × β)} (h1 : (keys m1).Nodup) (h2 : (keys m2).Nodup)
+    (h : ∀ k, alookup k m1 = alookup k m2) : m1.Perm m2 := by
+  rw [List.perm_ext_iff_of_nodup (nodup_of_nodup_keys h1) (nodup_of_nodup_keys h2)]
+  intro ⟨k, v⟩
+  constructor
+  · intro hm; exact alookup_some_mem ((h k) ▸ mem_alookup_of_nodup h1 hm)
+  · intro hm; exact alookup_some_mem ((h k).symm ▸ mem_alookup_of_nodup h2 hm)
+
+end AssocMore
+
+section Canon
+variable {V : Type}
+
+open AGV.Topo in
+theorem orderedMap_perm (m : List (Source × V)) : (orderedMap m).Perm m := sortBy_perm _ m
+
+open AGV.Topo in
+/-- the written form depends on the bindings only -/
+theorem orderedMap_ext {m1 m2 : List (Source × V)} (h1 : (keys m1).Nodup) (h2 : (keys m2).Nodup)
+    (h : ∀ s, alookup s m1 = alookup s m2) : orderedMap m1 = orderedMap m2 := by
+  refine sortBy_canonical (lt := AGV.Snapshot.keyLt) (fun a b c => bytesLt_trans a.1 b.1 c.1)
+    (fun a b => bytesLt_asymm a.1 b.1) (perm_of_alookup_eq h1 h2 h) ?_
+  have := List.pairwise_map.mp (List.nodup_iff_pairwise_ne.mp h1)
+  exact this.imp (fun {a b} h => bytesLt_total a.1 b.1 h)
+
+theorem nodup_keys_orderedMap {m : List (Source × V)} (h : (keys m).Nodup) : (keys (orderedMap m)).Nodup :=
+  ((orderedMap_perm m).map (fun x : Source × V => x.1)).nodup_iff.mpr h
+
+/-- reading a written map back gives the same bindings -/
+theorem alookup_afromList_orderedMap {m : List (Source × V)} (h : (keys m).Nodup) (s : Source) :
+    alookup s (afromList (orderedMap m)) = alookup s m := by
+  rw [afromList_nodup _ (nodup_keys_orderedMap h)]
+  exact alookup_perm (orderedMap_perm m) (nodup_keys_orderedMap h) s
+
+end Canon
+
+/-! ## canonical snapshot directories -/
+
+section CanonDir
+variable {V : Type}
+
+def ids (d : Dir V) : List Id := d.map (·.id)
+
+/-- every snapshot file is named `<id>-snapshot.yml` for its own id, ids pairwise different -/
+def CanonicalNames (d : Dir V) : Prop := (∀ f ∈ d, f.name = snapName f.id) ∧ (ids d).Nodup
+
+instance (d : Dir V) : Decidable (CanonicalNames d) := by unfold CanonicalNames; exact inferInstance
+
+theorem CanonicalNames.tail {f : SnapFile V} {d : Dir V} (h : CanonicalNames (f :: d)) : CanonicalNames d :=
+  ⟨fun g hg => h.1 g (List.mem_cons_of_mem _ hg), (List.nodup_cons.mp h.2).2⟩
+
+theorem readFile_some {name : Name} {d : Dir V} {f : SnapFile V} (h : readFile name d = some f) :
+    f ∈ d ∧ f.name = name := by
+  induction d with
+  | nil => simp [readFile] at h
+  | cons g rest ih =>
+    by_cases h1 : g.name = name
+    · simp [readFile, h1] at h; subst h; exact ⟨List.mem_cons_self .., h1⟩
+    · simp [readFile, h1] at h; exact ⟨List.mem_cons_of_mem _ (ih h).1, (ih h).2⟩
+
+theorem readFile_none_iff (name : Name) (d : Dir V) : readFile name d = none ↔ ∀ g ∈ d, g.name ≠ name := by
+  induction d with
+  | nil => simp [readFile]
+  | cons g rest ih =>
+    by_cases h1 : g.name = name <;> simp [readFile, h1, ih]
+
+theorem readFile_of_mem {d : Dir V} (hc : CanonicalNames d) {f : SnapFile V} (hf : f ∈ d) :
+    readFile f.name d = some f := by
+  induction d with
+  | nil => cases hf
+  | cons g rest ih =>
+    rcases List.mem_cons.mp hf with h | h
+    · subst h; simp [readFile]
+    · have hne : g.name ≠ f.name := by
+        intro e
+        rw [hc.1 g (List.mem_cons_self ..), hc.1 f hf] at e
+        have := snapName_injective e
+        exact (List.nodup_cons.mp hc.2).1 (by show g.id ∈ _; rw [this]; exact List.mem_map.mpr ⟨f, h, rfl⟩)
+      simp [readFile, hne, ih hc.tail h]
+
+theorem CanonicalNames.perm {d d' : Dir V} (hp : d.Perm d') (h : CanonicalNames d) : CanonicalNames d' :=
+  ⟨fun f hf => h.1 f (hp.mem_iff.mpr hf), (hp.map (fun f : SnapFile V => f.id)).nodup_iff.mp h.2⟩
+
+/-- a canonical directory is a map from names to files: the walk order is irrelevant -/
+theorem readFile_perm {d d' : Dir V} (hp : d.Perm d') (h : CanonicalNames d) (name : Name) :
+    readFile name d = readFile name d' := by
+  cases h1 : readFile name d with
+  | some f =>
+    obtain ⟨hf, hn⟩ := readFile_some h1
+    rw [← hn]; exact (readFile_of_mem (h.perm hp) (hp.mem_iff.mp hf)).symm
+  | none =>
+    symm; rw [readFile_none_iff] at h1 ⊢
+    exact fun g hg => h1 g (hp.mem_iff.mpr hg)
+
+theorem mem_ids_writeFile {x : Id} {f : SnapFile V} {d : Dir V} (h : x ∈ ids (writeFile f d)) :
+    x = f.id ∨ x ∈ ids d := by
+  induction d with
+  | nil => simp [writeFile, ids] at h; exact .inl h
+  | cons g rest ih =>
+    by_cases h1 : g.name = f.name
+    · simp [writeFile, h1, ids] at h
+      rcases h with h | h
+      · exact .inl h
+      · exact .inr (by simp only [ids, List.map_cons, List.mem_cons, List.mem_map]; exact .inr h)
+    · simp only [writeFile, h1, if_false, ids, List.map_cons, List.mem_cons] at h
+      rcases h with h | h
+      · exact .inr (by simp [ids, h])
+      · rcases ih h with h | h
+        · exact .inl h
+        · exact .inr (by simp only [ids, List.map_cons, List.mem_cons]; exact .inr h)
+
+theorem CanonicalNames.writeFile {d : Dir V} (h : CanonicalNames d) (id : Id) (es : List (Source × V)) :
+    CanonicalNames (writeFile { name := snapName id, id := id, entries := es } d) := by
+  induction d with
+  | nil => exact ⟨by simp [AGV.Verify.writeFile], by simp [AGV.Verify.writeFile, ids]⟩
+  | cons g rest ih =>
+    by_cases h1 : g.name = snapName id
+    · have hg : g.id = id := snapName_injective ((h.1 g (List.mem_cons_self ..)).symm.trans h1)
+      simp only [AGV.Verify.writeFile, h1, if_true]
+      refine ⟨?_, ?_⟩
+      · intro f hf
+        rcases List.mem_cons.mp hf with hf | hf
+        · subst hf; rfl
+        · exact h.1 f (List.mem_cons_of_mem _ hf)
+      · have := h.2; simp only [ids, List.map_cons] at this ⊢; rw [← hg]; exact this
+    · simp only [AGV.Verify.writeFile, h1, if_false]
+      have ih' := ih h.tail
+      refine ⟨?_, ?_⟩
+      · intro f hf
+        rcases List.mem_cons.mp hf with hf | hf
+        · subst hf; exact h.1 _ (List.mem_cons_self ..)
+        · exact ih'.1 f hf
+      · show (g.id :: ids _).Nodup
+        rw [List.nodup_cons]
+        refine ⟨fun hm => ?_, ih'.2⟩
+        rcases mem_ids_writeFile hm with hm | hm
+        · exact h1 ((h.1 g (List.mem_cons_self ..)).trans (by rw [hm]))
+        · exact (List.nodup_cons.mp h.2).1 hm
+
+theorem CanonicalNames.writeMerged (pathIds : List Id) (merged : Coll V) :
+    ∀ d : Dir V, CanonicalNames d → CanonicalNames (writeMergedToDisk merged pathIds d) := by
+  induction merged with
+  | nil => intro d h; exact h
+  | cons e rest ih =>
+    intro d h
+    show CanonicalNames (writeMergedToDisk rest pathIds _)
+    apply ih
+    by_cases hp : e.1 ∈ pathIds
+    · simp only [hp, if_true]; exact h.writeFile _ _
+    · simp only [hp, if_false]; exact h
+
+/-- **the loader vs the directory**: in a canonical directory the snapshots loaded for an id are
+the entries of the file `<id>-snapshot.yml` (if the id passes the filter) -/
+theorem alookup_loadSnapshots_gen (filter : Id → Bool) (id : Id) (d : Dir V) :
+    ∀ c : Coll V, CanonicalNames d →
+      alookup id (d.foldl (fun c f => if filter f.id then ainsert f.id (afromList f.entries) c else c) c) =
+        match (if filter id then readFile (snapName id) d else none) with
+        | some g => some (afromList g.entries)
+        | none => alookup id c := by
+  induction d with
+  | nil => intro c _; simp [readFile]
+  | cons f rest ih =>
+    intro c hc
+    rw [List.foldl_cons, ih _ hc.tail]
+    have hname := hc.1 f (List.mem_cons_self ..)
+    by_cases hid : f.id = id
+    · have hrest : readFile (snapName id) rest = none := by
+        rw [readFile_none_iff]
+        intro g hg e
+        have : g.id = id := snapName_injective ((hc.1 g (List.mem_cons_of_mem _ hg)).symm.trans e)
+        exact (List.nodup_cons.mp hc.2).1 (by show f.id ∈ _; rw [hid, ← this]; exact List.mem_map.mpr ⟨g, hg, rfl⟩)
+      by_cases hf : filter id = true
+      · simp [hf, hrest, readFile, hname, hid, alookup_ainsert]
+      · simp [hf, hid]
+    · have hne : ¬ f.name = snapName id := fun e => hid (snapName_injective (hname.symm.trans e))
+      have hstep : alookup id (if filter f.id = true then ainsert f.id (afromList f.entries) c else c) = alookup id c := by
+        split
+        · rw [alookup_ainsert, if_neg hid]
+        · rfl
+      simp only [readFile, hne, if_false, hstep]
+
+theorem alookup_loadSnapshots (filter : Id → Bool) (id : Id) (d : Dir V) (hc : CanonicalNames d) :
+    alookup id (loadSnapshots filter d) =
+      if filter id then (readFile (snapName id) d).map (fun g => afromList g.entries) else none := by
+  unfold loadSnapshots
+  rw [alookup_loadSnapshots_gen filter id d [] hc]
+  by_cases hf : filter id = true
+  · simp only [hf, if_true]; cases readFile (snapName id) d <;> simp [alookup]
+  · simp [hf, alookup]
+
+theorem nodup_keys_loadSnapshots (filter : Id → Bool) (d : Dir V) : (keys (loadSnapshots filter d)).Nodup := by
+  unfold loadSnapshots
+  suffices ∀ c : Coll V, (keys c).Nodup →
+      (keys (d.foldl (fun c f => if filter f.id then ainsert f.id (afromList f.entries) c else c) c)).Nodup from
+    this [] List.nodup_nil
+  induction d with
+  | nil => intro c h; exact h
+  | cons f rest ih =>
+    intro c h
+    rw [List.foldl_cons]; apply ih
+    split
+    · exact nodup_keys_ainsert _ _ _ h
+    · exact h
+
+theorem inner_nodup_loadSnapshots (filter : Id → Bool) (d : Dir V) :
+    ∀ e ∈ loadSnapshots filter d, (keys e.2).Nodup := by
+  unfold loadSnapshots
+  suffices ∀ c : Coll V, (∀ e ∈ c, (keys e.2).Nodup) →
+      ∀ e ∈ d.foldl (fun c f => if filter f.id then ainsert f.id (afromList f.entries) c else c) c, (keys e.2).Nodup from
+    this [] (fun e he => by cases he)
+  induction d with
+  | nil => intro c h; exact h
+  | cons f rest ih =>
+    intro c h
+    rw [List.foldl_cons]; apply ih
+    split
+    · intro e he
+      rcases mem_ainsert he with he | he
+      · subst he; exact nodup_keys_afromList _
+      · exact h e he
+    · exact h
+
+/-- `find?` by name in a map with pairwise different ids = lookup by id -/
+theorem find_snapName (id : Id) (pathIds : List Id) (merged : Coll V) (hn : (keys merged).Nodup) :
+    merged.find? (fun e => decide (snapName e.1 = snapName id) && decide (e.1 ∈ pathIds)) =
+      if id ∈ pathIds then (alookup id merged).map (fun m => (id, m)) else none := by
+  induction merged with
+  | nil => simp [alookup]
+  | cons e rest ih =>
+    obtain ⟨a, m⟩ := e
+    simp only [keys_cons, List.nodup_cons] at hn
+    by_cases ha : a = id
+    · subst ha
+      by_cases hp : a ∈ pathIds
+      · simp [List.find?, hp, alookup]
+      · have : List.find? (fun e => decide (snapName e.1 = snapName a) && decide (e.1 ∈ pathIds)) rest = none := by
+          rw [List.find?_eq_none]; intro e' he' hc
+          simp only [Bool.and_eq_true, decide_eq_true_eq] at hc
+          exact hp (snapName_injective hc.1 ▸ hc.2)
+        simp [List.find?, hp, this]
+    · have : ¬ snapName a = snapName id := fun e => ha (snapName_injective e)
+      simp [List.find?, this, alookup, ha, ih hn.2]
+
+/-- rewriting every file with what it holds is the identity -/
+theorem writeMerged_same (pathIds : List Id) (merged : Coll V) (d : Dir V)
+    (h : ∀ e ∈ merged, e.1 ∈ pathIds →
+      readFile (snapName e.1) d = some { name := snapName e.1, id := e.1, entries := orderedMap e.2 }) :
+    writeMergedToDisk merged pathIds d = d := by
+  induction merged with
+  | nil => rfl
+  | cons e rest ih =>
+    show writeMergedToDisk rest pathIds _ = d
+    by_cases hp : e.1 ∈ pathIds
+    · simp only [hp, if_true]
+      rw [writeFile_same _ _ (h e (List.mem_cons_self ..) hp)]
+      exact ih (fun e' he' => h e' (List.mem_cons_of_mem _ he'))
+    · simp only [hp, if_false]
+      exact ih (fun e' he' => h e' (List.mem_cons_of_mem _ he'))
+
+end CanonDir
+
 end AGV.Verify
